@@ -11,6 +11,7 @@ package topologyaware
 // fakes, which record what the policy tells the runtime.
 
 import (
+	"errors"
 	"os"
 	"strconv"
 	"strings"
@@ -142,6 +143,7 @@ func (c *verifContainer) SetCPUShares(v int64) { c.shares, c.sharesSet = v, true
 type verifCache struct {
 	cache.Cache
 	containers map[string]*verifContainer
+	implicit   map[string]bool
 }
 
 func (c *verifCache) LookupContainer(id string) (cache.Container, bool) {
@@ -152,8 +154,26 @@ func (c *verifCache) LookupContainer(id string) (cache.Container, bool) {
 	return ctr, true
 }
 func (c *verifCache) Save() error                             { return nil }
-func (c *verifCache) AddImplicitAffinities(map[string]cache.ImplicitAffinity) error { return nil }
-func (c *verifCache) DeleteImplicitAffinities(...string)                           {}
+// implicit affinities as the real cache keeps them (pkg/resmgr/cache/affinity.go:240-257)
+func (c *verifCache) AddImplicitAffinities(implicit map[string]cache.ImplicitAffinity) error {
+	if c.implicit == nil {
+		c.implicit = map[string]bool{}
+	}
+	for name := range implicit {
+		if c.implicit[name] {
+			return errors.New("implicit affinity " + name + " already defined")
+		}
+	}
+	for name := range implicit {
+		c.implicit[name] = true
+	}
+	return nil
+}
+func (c *verifCache) DeleteImplicitAffinities(names ...string) {
+	for _, name := range names {
+		delete(c.implicit, name)
+	}
+}
 func (c *verifCache) SetPolicyEntry(string, interface{})      {}
 func (c *verifCache) GetPolicyEntry(string, interface{}) bool { return false }
 func (c *verifCache) GetContainers() []cache.Container {
